@@ -567,6 +567,12 @@ class sptenmat:
             self.subs = self.subs[sort_idx]
             self.vals = self.vals[sort_idx]
 
+        # assigning zero removes the entry: explicit zeros are never stored
+        if self.vals.size > 0 and (self.vals == 0).any():
+            keep = (self.vals != 0).ravel()
+            self.subs = self.subs[keep]
+            self.vals = self.vals[keep]
+
     def __repr__(self):
         """Return string representation of a :class:`pyttb.sptenmat`.
 
